@@ -161,12 +161,12 @@ def run(model, tier="quick"):
 
 
 MANIFEST = {
-    "technique": "structural must-append/must-delete and guard-direction rules on the settlement loops plus formula/ledger identity for payoff and fee",
-    "claim": "On all paths of the settlement code: expiry is tested as now >= expiry; every expired key is scheduled and "
-             "every scheduled key deleted in the same invocation (exactly-once settlement); delivery direction matches "
-             "the in-the-money guard; payoff, delivery fee, rounding, the open-bar predicate and the update gate equal "
-             "their references as canonical expressions; only deposit/sell/settlement credit cash; buy/sell are gated "
-             "by write_func.",
-    "note": "Trusted: the reference expressions in sa/props/C16.py; the shape of the two settlement loops (a changed "
-            "shape is an analysis error, not a pass). Not decided: missing-instrument fallback data.",
+    "technique": "canonical-loop / ledger identity of the settlement procedure against a reference (value numbering) plus formula identity for payoff and fee and who-may-call rules",
+    "claim": "The settlement procedure equals a reference procedure as canonical per-position effect blocks: a position is "
+             "touched iff now >= expiry; in-the-money puts (strike > underlying) / calls (underlying > strike) are delivered "
+             "with the matching direction and nothing else is; every expired key - and only those - enters the removal list, "
+             "and the second loop deletes exactly the keys of that list (exactly-once settlement). Payoff, delivery fee, "
+             "rounding, the open-bar predicate and the update gate equal their references as canonical expressions; only "
+             "deposit/sell/settlement credit cash; buy/sell are gated by write_func.",
+    "note": "Trusted: the reference procedure and expressions in sa/props/C16.py. Not decided: missing-instrument fallback data.",
 }
